@@ -221,6 +221,12 @@ example : orderCompat psEx [⟨⟨5, 8⟩, 0, some 1⟩, ⟨⟨5, 7⟩, 1, some 
 example : specOrder psEx (tagsOf [⟨⟨5, 8⟩, 0, some 1⟩, ⟨⟨5, 7⟩, 1, some 1⟩] [1, 1]) = false := by decide
 example : Gen.ClassRows.rows.length > 40 := by decide
 example : Lex.booleanOk ['T', 'r', 'u', 'e'] = false := by decide
+-- the model of saml2.validate.valid_domain_name (tied to the code by the `lex` stream): labels, optional port
+example : Lex.domainNameOk "host.example.org:8080".toList = true := by decide
+example : Lex.domainNameOk "localhost".toList = true := by decide
+example : Lex.domainNameOk "-example.org".toList = false := by decide
+example : Lex.domainNameOk "example..org".toList = false := by decide
+example : Lex.domainNameOk "example.org:123456".toList = false := by decide
 
 
 -- validator branches the regenerated schema set cannot reach (it has no abstract element declaration, no fixed
